@@ -19,7 +19,7 @@ META = {
         "quick": "all sequences of <=3 items from {zero-length frame, frames with 2/3/19-byte payloads, NMEA sentence (3 symbolic body bytes), UBX (0/2/257 payload bytes), "
                  "1-2 inert noise bytes}; payload, CRC, NMEA body, UBX id/payload/checksum symbolic; error modes 0/1/2; socket: all 2-item sequences with every "
                  "placement of <=1 receive cut, seeded 3-item sequences with <=2 cuts, bufsize in {3, 4096}; one 1023-byte frame between neighbours",
-        "thorough": "all sequences of <=4 items, socket: all 3-item sequences with <=2 cuts"},
+        "thorough": "all sequences of <=4 items; socket: all 2-item sequences with <=2 cuts, 120 seeded 3-item sequences with <=2 cuts"},
     "outside": "sequences longer than the bound; real io.BufferedReader objects (represented by the read(n)-returns-n-unless-EOF contract of the double); "
                "2-byte payload announcing 4076 (no room for the sub-type)",
     "assumptions": ["frames with payloads shorter than 2 bytes carry no message number: the oracle neither requires nor forbids returning them",
@@ -46,10 +46,10 @@ def jobs(tier, seed):
     out.append(('sock', 2, 0, 20, 1, 3))
     rnd = random.Random(seed + 17)
     three = list(itertools.product(QS, repeat=3))
-    pick = rnd.sample(range(len(three)), 32 if tier == 'quick' else len(three))
+    pick = rnd.sample(range(len(three)), 32 if tier == 'quick' else 120)
     for i in range(0, len(pick), 4):
         out.append(('sockpick', 3, pick[i:i + 4], 1 if tier == 'quick' else 2, 4096))
-    pick2 = rnd.sample(range(len(two)), 12 if tier == 'quick' else len(two))
+    pick2 = rnd.sample(range(len(two)), 12 if tier == 'quick' else len(two))   # 2 cuts: about 150 paths per sequence
     for i in range(0, len(pick2), 2):
         out.append(('sockpick', 2, pick2[i:i + 2], 2, 4096))
     out.append(('max', ('R2', 'Rmax', 'R3')))
